@@ -9,8 +9,10 @@ from harness.storage import TracingFileStorage, TracingRamStorage, Log
 
 def fname(a):
     parts = a.split(":")
-    if parts[0] in ("toc", "tmptoc"):
-        return [parts[0], int(parts[1])]
+    if parts[0] == "toc":
+        return ["toc", int(parts[1])]
+    if parts[0] == "tmptoc":
+        return ["tmptoc", int(parts[1]), ":".join(parts[2:])]
     if parts[0] == "seg":
         return ["seg", parts[1], parts[2]]
     return None
@@ -43,7 +45,13 @@ def convert(events):
             e2["res"] = e["res"]
         elif ev == "api":
             e2["op"] = e["op"]
-            e2["key"] = e["key"]
+            if "key" in e:
+                e2["key"] = e["key"]
+            if "uid" in e:
+                e2["uid"] = e["uid"]
+            if "keys" in e:
+                e2["keys"] = e["keys"]
+                e2["ret"] = e.get("ret", -1)
         elif ev == "probe":
             for k in ("keys", "gen", "uptodate", "n"):
                 e2[k] = e[k]
@@ -70,6 +78,7 @@ class IxWorld(object):
             self.dir = tempfile.mkdtemp(prefix="verif-ixs-")
             self.st = TracingFileStorage(self.dir, log=self.log)
         self.schema = fields.Schema(key=fields.ID(stored=True, unique=True),
+                                    uid=fields.NUMERIC(stored=True, unique=True),
                                     body=fields.TEXT(sortable=sortable), n=fields.NUMERIC(sortable=sortable))
         self.ix = self.st.create_index(self.schema)
         self.log.events = []           # the trace starts from the freshly created index
@@ -136,11 +145,30 @@ class IxWorld(object):
         hits = [h["key"] for h in s.search(query.Every(), limit=None)]
         keys = docs
         n = len(docs)
+        views = [hits]
+        if getattr(self, "rich_probe", False):
+            rd = s.reader()
+            views.append([h["key"] for h in s.search(query.Every(), limit=None, sortedby="n")])
+            views.append([h["key"] for h in s.search(query.Not(query.Term("key", u"no-such-key")), limit=None)])
+            views.append([h["key"] for h in s.search(query.Term("body", u"xx"), limit=None, scored=False)])
+            views.append([rd.stored_fields(dn)["key"] for dn in rd.all_doc_ids()])
+            views.append([s.stored_fields(dn)["key"] for dn in s.docs_for_query(query.Every("key"))])
+            groups = s.search(query.Every(), limit=None, groupedby="key").groups()
+            views.append([k for k, dns in groups.items() for _ in dns])
+            bykey = []
+            for k in sorted(set(docs)):
+                for dn in s.docs_for_query(query.Term("key", k)):
+                    bykey.append(s.stored_fields(dn)["key"])
+            views.append(bykey)
+            if rd.doc_count() != len(docs) or rd.doc_count_all() < len(docs) \
+                    or rd.has_deletions() != (rd.doc_count_all() != rd.doc_count()):
+                n = -1
         # disagreement between read paths is itself a violation: make it visible as a count mismatch
-        if sorted(hits) != sorted(docs) or s.doc_count() != len(docs):
+        if any(sorted(v) != sorted(docs) for v in views) or s.doc_count() != len(docs):
             n = -1
         gen = s.reader().generation()
-        self.log.emit("probe", keys=sorted(set(keys)), n=n, gen=-1 if gen is None else gen,
+        pairs = sorted(set((d["key"], int(d.get("uid", 0))) for d in s.documents()))
+        self.log.emit("probe", keys=[list(x) for x in pairs], n=n, gen=-1 if gen is None else gen,
                       uptodate=bool(s.up_to_date()))
 
     def trace(self):
@@ -209,8 +237,6 @@ def random_history(rng, wld, nsteps, keys=("k1", "k2", "k3", "k4", "k5")):
                 searchers[i] = (name2, s2)
                 wld.probe(name2, s2)
             else:
-                wld.readers.remove(name2)
-                wld.nr -= 1
                 wld.probe(name, s)
     for name, s in searchers:
         wld.probe(name, s)
